@@ -121,4 +121,19 @@ PROPS = {
                  "only the claimer; claimable refines the ghost ledger (sum of growth x sharesThen) within the counted half-unit roundings and exactly when representable; deleted / "
                  "empty-claimed positions disappear; unknown-position / non-positive-change calls and every error are no-ops. Model tied to the Go code by byte-exact differential run.",
  },
+ "C08": {
+  "modules": ["OsmoVerif.Props.C08"],
+  "min_theorems": 5,
+  "fingerprints": ["CL.Keeper_*", "CL.SwapState_*"],
+  "engines": [{"name": "clmath", "kind": "pure", "n": {"quick": 30000, "thorough": 400000}, "shards": {"quick": 2, "thorough": 16}},
+              {"name": "cl", "kind": "app", "n": {"quick": 1500, "thorough": 20000}, "shards": {"quick": 4, "thorough": 16}}],
+  "rule": "cl: histories on one concentrated pool through the real keeper (create incl. twin and k-fold positions, add, partial/full withdraw, swaps of both "
+          "kinds/directions from 1 unit to draining, collects, incentive creation, time advances, transfers) with reward oracles on every solvency pass; "
+          "clmath: per-step growth arithmetic on stratified (charge, liquidity, scaling factor); distinct = distinct op lines",
+  "trusted_base": ["osmoutils/accum as proved in C15", "cosmos-sdk bank"],
+  "assumptions": ["PARTIAL: proved = per-step credit arithmetic (growth x active liquidity <= charge, linearity) + accumulator theorems of C15; NOT proved = tick-crossing "
+                  "growth-outside bookkeeping, uptime accumulators, forfeit rule: decided by the engine oracles (twins equal, k-fold within rounding, never-in-range earns "
+                  "nothing, claimed+claimable <= paid in, claim twice yields nothing, claimable <= balances) on the sampled histories only"],
+  "explanation": "model tied by differential run: per-step growth function (exported through a verif-tagged overlay file) and the whole pool state machine",
+ },
 }
